@@ -6,6 +6,8 @@ Prints one line per (mutant, property): CAUGHT / MISSED / INVALID(build) and wri
 import concurrent.futures as cf, json, os, re, shutil, subprocess, sys, tempfile
 
 VERIF = os.path.dirname(os.path.dirname(os.path.abspath(__file__)))
+sys.path.insert(0, os.path.join(VERIF, "driver"))
+from props import PROPS  # noqa: E402
 ENV = dict(os.environ, GOFLAGS="-mod=mod", GOPROXY="off", GOSUMDB="off", GOTOOLCHAIN="local")
 
 def apply(m, d):
@@ -73,7 +75,7 @@ def main():
     for m in muts:
         if only and only not in m["name"]:
             continue
-        props = [p for p in m["props"] if not props_f or p in props_f]
+        props = [p for p in m["props"] if (not props_f or p in props_f) and p in PROPS]
         if props:
             sel.append((m, props))
     results = []
